@@ -103,6 +103,12 @@ CLAIMS = {
               "and every recorded execution is validated by TLC against the spec, step by step."),
         design="5/C12", technique="TLA+ spec + TLC bounded exhaustive MC; TLC trace validation of recorded timer schedules",
         note="Bounded depth; glitches inside one machine cycle, an edge on the reload tick and the cycle after a cancelled reload are left nondeterministic (the statement is silent)."),
+    "C23": dict(
+        category="model_checking",
+        text=("Serial.tla: the delivered sequence is append-only and equals the sequence of SB writes iff a writer is configured; TLC checks it over all write sequences to depth 6. The real serial port is driven at bus level "
+              "and by generated programs on the full machine (every CPU write logged by the bus hook), with and without a writer; TLC validates each write/read and compares the writer's buffer with the spec's `out` at random points and at the end."),
+        design="5/C23", technique="TLA+ sequence spec + TLC MC; TLC trace validation of recorded bus writes against the delivered byte stream",
+        note="The blargg ROM transcripts are validated by the system-level checks, not here."),
 }
 
 NOT_YET = "machinery for this property is not built yet in this round (work in progress; see DESIGN.md section 5)"
